@@ -140,7 +140,8 @@ def history(draw):
                     frame=None if sister else pick([None, None, None] + START), scale=pick(SCALES))
 
     def clone():
-        return dict(op="clone", what=pick(["state", "state", "cov"]), how=pick(["copy", "deepcopy", "pickle"]))
+        # ("rebuild": a covariance built FROM the covariance object - Cov(state, cov, frame) - a second-generation input)
+        return dict(op="clone", what=pick(["state", "state", "cov", "cov"]), how=pick(["copy", "deepcopy", "pickle", "rebuild"]))
 
     def extra():
         # refused requests (must leave everything as it was) and snapshots taken BEFORE later in-place changes
@@ -651,8 +652,13 @@ def check_history(case):
                               fname(snap.cov.frame), step, op["how"]))
             cls.append(f"snapshot:{op['how']}")
         elif kind == "clone":
+            if op["how"] == "rebuild":
+                # (a covariance built while its state sits in a rotating frame takes its QSW / TNW axes from the
+                # velocity relative to that frame - outside the quantifier: an ordinary copy is taken instead)
+                op = dict(op, what="cov", how="rebuild" if model.state_frame not in ROTATING else "copy")
             fn = {"copy": _copy.copy, "deepcopy": _copy.deepcopy,
-                  "pickle": lambda o: _pickle.loads(_pickle.dumps(o))}[op["how"]]
+                  "pickle": lambda o: _pickle.loads(_pickle.dumps(o)),
+                  "rebuild": lambda c: type(c)(orb, c, c.frame)}[op["how"]]
             cls.append(f"clone:{op['how']}:{op['what']}")
             old = orb
             kept_cov = np.array(old.cov, dtype=float)
